@@ -267,6 +267,52 @@ func checkC09(p *Prog, r *Report) {
 	r.Rule("C09/SKIPDIR-ONLY-DIRS", "in every fs.WalkDirFunc of package receiver, each `return fs.SkipDir` is dominated by the true edge of a directory test on that callback's entry (SkipDir for a file makes WalkDir skip the remaining siblings)", 1)
 	checkSkipDir(p, r, "C09/SKIPDIR-ONLY-DIRS", pkgReceiver)
 
+	// ---- DESCENDS-LISTED ----
+	r.Rule("C09/DESCENDS-LISTED", "the delete walk descends into every directory that is in the file list: in the WalkDir callbacks of package receiver each `return fs.SkipDir` is dominated by findInFileList(list, path)==false for the walked path (only a directory that is being removed is skipped); skipping a listed directory would leave the extraneous entries below it", 1)
+	if find0 := p.Func(pkgReceiver, "", "findInFileList"); find0 != nil {
+		walked := func(v ssa.Value) bool {
+			for _, root := range g.paramRoots(v, 0) {
+				pp, ok := root.(*ssa.Parameter)
+				if !ok || !isWalkDirFunc(pp.Parent()) {
+					return false
+				}
+				if wp, _ := walkParams(pp.Parent()); wp != pp {
+					return false
+				}
+			}
+			return true
+		}
+		notListed := func(v ssa.Value) bool {
+			c, ok := v.(*ssa.Call)
+			if !ok || c.Common().StaticCallee() != find0 || len(c.Common().Args) != 2 {
+				return false
+			}
+			return walked(c.Common().Args[1])
+		}
+		n := 0
+		for _, fn := range recvFuncs {
+			if _, inWalk := walkContext(g, fn, 0); !inWalk {
+				continue
+			}
+			for _, b := range fn.Blocks {
+				ret, ok := lastInstr(b).(*ssa.Return)
+				if !ok || len(ret.Results) != 1 {
+					continue
+				}
+				for _, leaf := range phiLeaves(retResults(ret)[0]) {
+					if !isSkipDirLoad(leaf) {
+						continue
+					}
+					n++
+					r.Cond(HasFact(ret, false, notListed), "C09/DESCENDS-LISTED", funcKey(fn)+" return SkipDir", p.Pos(ret.Pos()), "`return SkipDir` is reachable for an entry that is in the file list: the walk does not descend into that directory and extraneous entries below it survive --delete")
+				}
+			}
+		}
+		if n == 0 {
+			r.OK("C09/DESCENDS-LISTED", "delete walk never returns SkipDir", "-", "every directory is descended into")
+		}
+	}
+
 	// ---- REMOVE-GATES ----
 	r.Rule("C09/REMOVE-GATES", "every (*os.Root).RemoveAll in package receiver sits in a WalkDir callback, is dominated by findInFileList(list, path)==false for the same path it removes, and on every call chain by IOErrors>0 == false and DeleteMode == true; IOErrors is stored only from the wire", 5)
 	ioerrs := p.Field(pkgReceiver, "Transfer", "IOErrors")
